@@ -19,22 +19,30 @@ Notation mvs := (mvs hstate dec_field cfg Q).
 Notation step := (step dec_field enc_field enc_set_max cfg).
 Implicit Types c : sconn.
 
-(* the moves of the read loop, of the timers and of the environment *)
-(* the index is the code the frame parser handed to the read loop with this event, if any *)
+(* the moves of the read loop, of the timers and of the environment.
+   The index is the code the frame parser handed to the read loop with this event, if any. *)
+Inductive omv (pc : option N) : sconn -> sconn -> Prop :=
+| omv_pop c fr q : sc_sl_done c = false -> sc_readerQ c = fr :: q -> omv pc c (upd_readerQ c q)
+| omv_slexit c : sc_sl_done c = false -> sc_rl_done c = true -> sc_readerQ c = [] ->
+    omv pc c (note (upd_done c true true) (OExit 1 1))
+| omv_rl_goaway c code : sc_rl_done c = false -> code = c_ProtocolError \/ pc = Some code ->
+    omv pc c (write_goaway c 0 code)                                               (* the read loop *)
+| omv_rl_exit c why : sc_rl_done c = false -> omv pc c (rl_exit c why)
+| omv_rl_expect c n : sc_rl_done c = false -> omv pc c (upd_expectCont c n)
+| omv_rl_fwd c fr : sc_rl_done c = false -> sc_sl_done c = false -> omv pc c (upd_readerQ c (sc_readerQ c ++ [fr]))
+| omv_rl_emit c o : sc_rl_done c = false -> is_frame o -> omv pc c (emit c o)
+| omv_idle c : omv pc c (upd_closer (write_goaway c 0 c_NoError) true)   (* closeIdleConn *)
+| omv_now c t : omv pc c (upd_now c t)
+| omv_wl_dead c : omv pc c (upd_wl_dead c true).
+
+Inductive omvs (pc : option N) : sconn -> sconn -> Prop :=
+| omvs_nil c : omvs pc c c
+| omvs_cons a b c : omv pc a b -> omvs pc b c -> omvs pc a c.
+
+(* all moves *)
 Inductive gmv (pc : option N) : sconn -> sconn -> Prop :=
-| gmv_sl o a b : mv o a b -> gmv pc a b                                   (* the stream loop *)
-| gmv_pop c fr q : sc_sl_done c = false -> sc_readerQ c = fr :: q -> gmv pc c (upd_readerQ c q)
-| gmv_slexit c : sc_sl_done c = false -> sc_rl_done c = true -> sc_readerQ c = [] ->
-    gmv pc c (note (upd_done c true true) (OExit 1 1))
-| gmv_rl_goaway c code : sc_rl_done c = false -> code = c_ProtocolError \/ pc = Some code ->
-    gmv pc c (write_goaway c 0 code)    (* the read loop *)
-| gmv_rl_exit c why : sc_rl_done c = false -> gmv pc c (rl_exit c why)
-| gmv_rl_expect c n : sc_rl_done c = false -> gmv pc c (upd_expectCont c n)
-| gmv_rl_fwd c fr : sc_rl_done c = false -> sc_sl_done c = false -> gmv pc c (upd_readerQ c (sc_readerQ c ++ [fr]))
-| gmv_rl_emit c o : sc_rl_done c = false -> is_frame o -> gmv pc c (emit c o)
-| gmv_idle c : gmv pc c (upd_closer (write_goaway c 0 c_NoError) true)   (* closeIdleConn *)
-| gmv_now c t : gmv pc c (upd_now c t)
-| gmv_wl_dead c : gmv pc c (upd_wl_dead c true).
+| gmv_sl o a b : mv o a b -> gmv pc a b
+| gmv_o a b : omv pc a b -> gmv pc a b.
 
 Inductive gmvs (pc : option N) : sconn -> sconn -> Prop :=
 | gmvs_nil c : gmvs pc c c
@@ -43,12 +51,21 @@ Inductive gmvs (pc : option N) : sconn -> sconn -> Prop :=
 Definition parser_code (e : event) : option N :=
   match e with EvRL (RBadFrame (Some code)) => Some code | _ => None end.
 
+Lemma omvs_one pc a b : omv pc a b -> omvs pc a b.
+Proof. intro H. econstructor; [eassumption | constructor]. Qed.
+Lemma omvs_trans pc a b c : omvs pc a b -> omvs pc b c -> omvs pc a c.
+Proof. induction 1; intro H2; [assumption|]. econstructor; [eassumption | auto]. Qed.
+Lemma omvs_ind_inv pc (P : sconn -> Prop) : (forall a b, omv pc a b -> P a -> P b) -> forall a b, omvs pc a b -> P a -> P b.
+Proof. intros H a b M. induction M; eauto. Qed.
+
 Lemma gmvs_one pc a b : gmv pc a b -> gmvs pc a b.
 Proof. intro H. econstructor; [eassumption | constructor]. Qed.
 Lemma gmvs_trans pc a b c : gmvs pc a b -> gmvs pc b c -> gmvs pc a c.
 Proof. induction 1; intro H2; [assumption|]. econstructor; [eassumption | auto]. Qed.
 Lemma gmvs_mvs pc l a b : mvs l a b -> gmvs pc a b.
 Proof. induction 1; [constructor|]. econstructor; [eapply gmv_sl; eassumption | assumption]. Qed.
+Lemma gmvs_omvs pc a b : omvs pc a b -> gmvs pc a b.
+Proof. induction 1; [constructor|]. econstructor; [eapply gmv_o; eassumption | assumption]. Qed.
 
 Lemma gmvs_ind_inv pc (P : sconn -> Prop) : (forall a b, gmv pc a b -> P a -> P b) -> forall a b, gmvs pc a b -> P a -> P b.
 Proof. intros H a b M. induction M; eauto. Qed.
@@ -58,23 +75,23 @@ Lemma gmvs_ind_rel pc (R : sconn -> sconn -> Prop) :
 Proof. intros Hr Ht Hm a b M. induction M; eauto. Qed.
 
 (* ---------- the read loop ---------- *)
-Lemma gmvs_forward pc c fr : sc_rl_done c = false -> gmvs pc c (forward c fr).
+Lemma omvs_forward pc c fr : sc_rl_done c = false -> omvs pc c (forward c fr).
 Proof.
-  intro Hr. unfold forward. destruct (sc_sl_done c) eqn:Hd; apply gmvs_one; [apply gmv_rl_exit | apply gmv_rl_fwd]; assumption.
+  intro Hr. unfold forward. destruct (sc_sl_done c) eqn:Hd; apply omvs_one; [apply omv_rl_exit | apply omv_rl_fwd]; assumption.
 Qed.
 
-Lemma gmvs_goaway_exit pc c code why : sc_rl_done c = false -> code = c_ProtocolError \/ pc = Some code ->
-  gmvs pc c (rl_exit (write_goaway c 0 code) why).
+Lemma omvs_goaway_exit pc c code why : sc_rl_done c = false -> code = c_ProtocolError \/ pc = Some code ->
+  omvs pc c (rl_exit (write_goaway c 0 code) why).
 Proof.
-  intros Hr Hc. eapply gmvs_trans; apply gmvs_one; [apply gmv_rl_goaway | apply gmv_rl_exit]; [assumption | assumption|].
+  intros Hr Hc. eapply omvs_trans; apply omvs_one; [apply omv_rl_goaway | apply omv_rl_exit]; [assumption | assumption|].
   rewrite sc_rl_done_write_goaway. assumption.
 Qed.
 
-Theorem gmvs_rl_step c i : sc_rl_done c = false -> gmvs (parser_code (EvRL i)) c (rl_step cfg c i).
+Theorem omvs_rl_step c i : sc_rl_done c = false -> omvs (parser_code (EvRL i)) c (rl_step cfg c i).
 Proof.
   intro Hr. unfold rl_step. destruct i as [fr| |[code|]|].
   - (* a frame *)
-    assert (R : forall c1 : sconn, sc_rl_done c1 = false -> gmvs None c1
+    assert (R : forall c1 : sconn, sc_rl_done c1 = false -> omvs None c1
       (if negb (sf_sid fr =? 0)
        then match check_frame_with_stream fr with
             | Some e => rl_exit (fst (write_error c1 None e)) 1
@@ -88,27 +105,27 @@ Proof.
             | _ => rl_exit (write_goaway c1 0 c_ProtocolError) 1
             end)).
     { intros c1 H1. destruct (negb (sf_sid fr =? 0)).
-      - destruct (check_frame_with_stream fr) as [e|] eqn:CF; [|apply gmvs_forward; assumption].
+      - destruct (check_frame_with_stream fr) as [e|] eqn:CF; [|apply omvs_forward; assumption].
         unfold check_frame_with_stream in CF.
         assert (e = EGoAway c_ProtocolError) as ->.
         { destruct (_ =? 0); [congruence|]. destruct (sf_kind fr); congruence. }
-        cbn [write_error fst]. apply gmvs_goaway_exit; [assumption | left; reflexivity].
-      - destruct (sf_kind fr); try (apply gmvs_goaway_exit; [assumption | left; reflexivity]).
-        + destruct (negb _); [apply gmvs_forward; assumption | constructor].
-        + destruct (negb _); [|constructor]. apply gmvs_one, gmv_rl_emit; [assumption | exact I].
-        + apply gmvs_one, gmv_rl_exit. assumption.
-        + destruct (sf_inc fr =? 0); [apply gmvs_goaway_exit; [assumption | left; reflexivity] | apply gmvs_forward; assumption]. }
+        cbn [write_error fst]. apply omvs_goaway_exit; [assumption | left; reflexivity].
+      - destruct (sf_kind fr); try (apply omvs_goaway_exit; [assumption | left; reflexivity]).
+        + destruct (negb _); [apply omvs_forward; assumption | constructor].
+        + destruct (negb _); [|constructor]. apply omvs_one, omv_rl_emit; [assumption | exact I].
+        + apply omvs_one, omv_rl_exit. assumption.
+        + destruct (sf_inc fr =? 0); [apply omvs_goaway_exit; [assumption | left; reflexivity] | apply omvs_forward; assumption]. }
     destruct (negb (sc_expectCont c =? 0)).
-    + destruct (_ || _)%bool; [apply gmvs_goaway_exit; [assumption | left; reflexivity]|].
+    + destruct (_ || _)%bool; [apply omvs_goaway_exit; [assumption | left; reflexivity]|].
       destruct (flag_has (sf_flags fr) FL_EH); [|apply R; assumption].
-      eapply gmvs_trans; [apply gmvs_one, gmv_rl_expect; assumption | apply R; assumption].
-    + destruct (fkind_eqb (sf_kind fr) KCont); [apply gmvs_goaway_exit; [assumption | left; reflexivity]|].
+      eapply omvs_trans; [apply omvs_one, omv_rl_expect; assumption | apply R; assumption].
+    + destruct (fkind_eqb (sf_kind fr) KCont); [apply omvs_goaway_exit; [assumption | left; reflexivity]|].
       destruct (_ && _)%bool; [|apply R; assumption].
-      eapply gmvs_trans; [apply gmvs_one, gmv_rl_expect; assumption | apply R; assumption].
-  - destruct (negb _); [apply gmvs_goaway_exit; [assumption | left; reflexivity] | constructor].
-  - apply gmvs_goaway_exit; [assumption | right; reflexivity].
-  - apply gmvs_one, gmv_rl_exit; assumption.
-  - apply gmvs_one, gmv_rl_exit; assumption.
+      eapply omvs_trans; [apply omvs_one, omv_rl_expect; assumption | apply R; assumption].
+  - destruct (negb _); [apply omvs_goaway_exit; [assumption | left; reflexivity] | constructor].
+  - apply omvs_goaway_exit; [assumption | right; reflexivity].
+  - apply omvs_one, omv_rl_exit; assumption.
+  - apply omvs_one, omv_rl_exit; assumption.
 Qed.
 
 (* ---------- every step ---------- *)
@@ -122,27 +139,50 @@ Hypothesis HQ_snd : forall s n, Q s -> Q (set_snd s n).
 Hypothesis HQ_frame : forall c s fr c' s' e, Q s -> handle_frame dec_field cfg c s fr = (c', s', e) ->
   (forall code, e <> Some (EGoAway code)) -> Q s'.
 
-Theorem gmvs_step c e : (sc_sl_done c = false -> ids_ok c) -> gmvs (parser_code e) c (step c e).
+(* the shape of a step: EvDone either does nothing or starts with the return of that handler;
+   every other event is a few moves of the environment / read loop followed by unlabelled stream-loop moves *)
+Definition done_noop (c : sconn) (sid : N) : Prop :=
+  sc_sl_done c = true \/
+  (take_stream (sc_gone c) sid = None /\ forall s, strms_search (sc_strms c) sid = Some s -> st_handlerRunning s = false).
+
+Theorem step_shape c e : (sc_sl_done c = false -> ids_ok c) ->
+  match e with
+  | EvDone sid r =>
+      (step c e = c /\ done_noop c sid) \/
+      (sc_sl_done c = false /\ exists b, mv (Some sid) c b /\ mvs [] b (step c e))
+  | _ => exists c0, omvs (parser_code e) c c0 /\ mvs [] c0 (step c e)
+  end.
 Proof.
   intro IO. destruct e as [i| |sid r|t| | | |].
-  - rewrite step_EvRL. destruct (sc_rl_done c) eqn:Hr; [constructor | apply gmvs_rl_step; assumption].
-  - rewrite step_EvSL. destruct (sc_sl_done c) eqn:Hd; [constructor|].
+  - rewrite step_EvRL. eexists. split; [|constructor].
+    destruct (sc_rl_done c) eqn:Hr; [constructor | apply omvs_rl_step; assumption].
+  - rewrite step_EvSL. destruct (sc_sl_done c) eqn:Hd; [eexists; split; constructor|].
     destruct (sc_readerQ c) as [|fr q] eqn:RQ.
-    + destruct (sc_rl_done c) eqn:Hr; [|constructor]. apply gmvs_one, gmv_slexit; assumption.
-    + eapply gmvs_trans; [apply gmvs_one, (gmv_pop _ c fr q); assumption|].
-      eapply gmvs_mvs. apply (mvs_sl_frame hstate dec_field enc_set_max cfg Q HQ_new HQ_closed HQ_handle_state HQ_weReset HQ_flags HQ_window HQ_snd HQ_frame (upd_readerQ c q) fr Hd (IO eq_refl)).
-  - rewrite step_EvDone. destruct (sc_sl_done c) eqn:Hd; [constructor|].
-    destruct (mvs_sl_done hstate dec_field enc_field cfg Q HQ_closed HQ_weReset HQ_flags HQ_snd c sid r Hd) as [(E & _)|(b & M1 & M)].
-    + rewrite E. constructor.
-    + eapply gmvs_trans; [apply gmvs_one, (gmv_sl _ _ _ _ M1) | eapply gmvs_mvs; exact M].
-  - rewrite step_EvClock. destruct (_ <? _)%Z; [apply gmvs_one, gmv_now | constructor].
-  - rewrite step_EvTimer. destruct (sc_sl_done c) eqn:Hd; [constructor|].
-    eapply gmvs_mvs. apply mvs_sl_timer. assumption.
-  - rewrite step_EvIdle. apply gmvs_one, gmv_idle.
-  - rewrite step_EvCloser. destruct (_ && _)%bool eqn:B; [|constructor].
+    + eexists. split; [|constructor].
+      destruct (sc_rl_done c) eqn:Hr; [|constructor]. apply omvs_one, omv_slexit; assumption.
+    + exists (upd_readerQ c q). split; [apply omvs_one, (omv_pop _ c fr q); assumption|].
+      apply (mvs_sl_frame hstate dec_field enc_set_max cfg Q HQ_new HQ_closed HQ_handle_state HQ_weReset HQ_flags HQ_window HQ_snd HQ_frame (upd_readerQ c q) fr Hd (IO eq_refl)).
+  - rewrite step_EvDone. destruct (sc_sl_done c) eqn:Hd; [left; split; [reflexivity | left; assumption]|].
+    destruct (mvs_sl_done hstate dec_field enc_field cfg Q HQ_closed HQ_weReset HQ_flags HQ_snd c sid r Hd) as [(E & N1 & N2)|(b & M1 & M)].
+    + left. split; [assumption | right; split; assumption].
+    + right. split; [reflexivity|]. exists b. split; assumption.
+  - rewrite step_EvClock. eexists. split; [|constructor]. destruct (_ <? _)%Z; [apply omvs_one, omv_now | constructor].
+  - rewrite step_EvTimer. exists c. split; [constructor|]. destruct (sc_sl_done c) eqn:Hd; [constructor|].
+    apply mvs_sl_timer. assumption.
+  - rewrite step_EvIdle. eexists. split; [apply omvs_one, omv_idle | constructor].
+  - rewrite step_EvCloser. exists c. split; [constructor|]. destruct (_ && _)%bool eqn:B; [|constructor].
     apply andb_prop in B. destruct B as [_ B]. apply negb_true_iff in B.
-    apply gmvs_one, (gmv_sl _ None), mv_brk. assumption.
-  - rewrite step_EvWriteFail. apply gmvs_one, gmv_wl_dead.
+    apply mvs0_one, mv_brk. assumption.
+  - rewrite step_EvWriteFail. eexists. split; [apply omvs_one, omv_wl_dead | constructor].
+Qed.
+
+Theorem gmvs_step c e : (sc_sl_done c = false -> ids_ok c) -> gmvs (parser_code e) c (step c e).
+Proof.
+  intro IO. pose proof (step_shape c e IO) as S.
+  destruct e as [i| |sid r|t| | | |];
+    try (destruct S as (c0 & O & M); eapply gmvs_trans; [apply gmvs_omvs; exact O | eapply gmvs_mvs; exact M]).
+  destruct S as [(E & _)|(_ & b & M1 & M)]; [rewrite E; constructor|].
+  eapply gmvs_trans; [apply gmvs_one, (gmv_sl _ _ _ _ M1) | eapply gmvs_mvs; exact M].
 Qed.
 
 (* invariants: closed under the moves (and strong enough to give ids_ok) => preserved by every step *)
